@@ -42,6 +42,36 @@ def reject_witnesses():
     }
 
 
+def handwritten_programs():
+    """well-typed programs for the rules the generator does not reach: string variables and ==/!= on strings, void functions with
+    an early bare return, for bounds that are expressions, while inside for with break/continue, bool globals used in functions,
+    three-level shadowing, return from inside a loop, if/else chains that return on every path, parameter order"""
+    N = lang_findings.N; V = lang_findings.V; P = lang_findings.P; seq = lang_findings.seq; fn = lang_findings.fn; prog = lang_findings.prog
+    S = lambda x: ('str', x)
+    return [
+        prog([fn(1, [(2, 'str'), (3, 'str')], 'bool', seq(P(V(2)), ('ret', ('bin', 'eq', V(2), V(3))))),
+              fn(0, [], 'int', seq(('let', False, 4, 'str', S(b'ab')), ('let', True, 5, 'str', S(b'cd')), ('set', 5, V(4)), P(('call', 1, [V(4), V(5)])),
+                                   P(('bin', 'ne', V(4), S(b'x'))), ('ret', N(0))))]),
+        prog([fn(1, [(2, 'int')], 'void', seq(('if', ('bin', 'lt', V(2), N(0)), ('ret', None), ('skip',)), P(V(2)))),
+              fn(0, [], 'int', seq(('expr', ('call', 1, [N(3)])), ('expr', ('call', 1, [N(-3)])), ('ret', N(0))))]),
+        prog([fn(0, [], 'int', seq(('let', True, 1, 'int', N(0)), ('let', False, 9, 'int', N(4)),
+              ('for', 2, N(0), ('bin', 'add', V(9), N(1)), seq(('if', ('bin', 'eq', V(2), N(1)), ('continue',), ('skip',)),
+                  ('let', True, 3, 'int', N(0)), ('while', ('bin', 'lt', V(3), V(2)), seq(('set', 3, ('bin', 'add', V(3), N(1))),
+                      ('if', ('bin', 'gt', V(3), N(2)), ('break',), ('skip',)), ('set', 1, ('bin', 'add', V(1), V(3))))))),
+              P(V(1)), ('ret', ('bin', 'mod', V(1), N(7)))))]),
+        prog([fn(1, [(2, 'bool')], 'bool', ('ret', ('bin', 'and', V(2), ('un', 'not', V(10))))),
+              fn(0, [], 'int', seq(P(('call', 1, [V(11)])), P(('cond', V(11), V(12), N(0))), ('ret', N(0))))],
+             [(10, 'bool', ('bool', False)), (11, 'bool', ('bin', 'or', V(10), ('bool', True))), (12, 'int', ('bin', 'mul', N(6), N(7)))]),
+        prog([fn(0, [], 'int', seq(('let', False, 1, 'int', N(1)), ('if', ('bool', True), seq(('let', False, 1, 'int', N(2)),
+              ('if', ('bool', True), seq(('let', False, 1, 'int', N(3)), P(V(1))), ('skip',)), P(V(1))), ('skip',)), P(V(1)), ('ret', N(0))))]),
+        prog([fn(1, [(2, 'int')], 'int', seq(('for', 3, N(0), N(10), ('if', ('bin', 'eq', V(3), V(2)), ('ret', ('bin', 'mul', V(3), N(2))), ('skip',))), ('ret', N(-1)))),
+              fn(0, [], 'int', seq(P(('call', 1, [N(4)])), P(('call', 1, [N(40)])), ('ret', N(0))))]),
+        prog([fn(1, [(2, 'int')], 'int', ('if', ('bin', 'gt', V(2), N(0)), ('ret', N(1)), ('if', ('bin', 'lt', V(2), N(0)), ('ret', N(-1)), ('ret', N(0))))),
+              fn(0, [], 'int', seq(P(('call', 1, [N(5)])), P(('call', 1, [N(-5)])), P(('call', 1, [N(0)])), ('ret', N(0))))]),
+        prog([fn(1, [(2, 'int'), (3, 'int')], 'int', ('ret', ('bin', 'sub', V(2), V(3)))), fn(0, [], 'int', seq(P(('call', 1, [N(10), N(3)])), ('ret', N(0))))]),
+    ]
+
+
 def backends(b, wd, name, src):
     obs = T.run_three(b, wd, name, src, want=('run', 'nanoc', 'native-run'))
     fails = {}
@@ -98,8 +128,9 @@ def run(ck):
         # ---- 2. generated well-typed programs: acceptance on both sides, then both real backends
         cfg = c02.stream_cfg(ck)
         nprog = 120 if ck.thorough else 32
-        progs = []
-        for i in range(nprog):
+        progs = handwritten_programs()
+        nprog += len(progs)
+        for i in range(nprog - len(progs)):
             g = progen.Gen(random.Random(ck.seed * 7927 + i), cfg)
             progs.append(g.gen_program())
             for f in g.feat:
@@ -140,7 +171,7 @@ def run(ck):
         # ---- 3. their mutants: ill-typed by theorem; what does the real checker say, and what happens to those it accepts?
         nmut_prog = nprog if ck.thorough else 10
         per_cause = 20 if ck.thorough else 4
-        muts = T.model_mutants(nv, sx[:nmut_prog])
+        muts = T.model_mutants(nv, sx[:nmut_prog])        # the handwritten programs come first: their mutants are always included
         items = []
         for i, ms in enumerate(muts):
             for q in ms:
